@@ -32,12 +32,12 @@ fn opt(s: Option<String>) -> String {
 /// A benchmarked function (or closure) of bench `id` ran.
 pub fn hit(id: u32, arg: Option<String>, ty: Option<&'static str>, cst: Option<String>) {
     cost(COSTS.get(id as usize).copied().unwrap_or(1000));
-    push(format!("HIT\t{id}\t{}\t{}\t{}\t{:?}", opt(arg), ty.map(short).unwrap_or("-"), opt(cst), std::thread::current().id()));
+    push(format!("HIT\t{id}\t{}\t{}\t{}\t{:?}", opt(arg), ty.unwrap_or("-"), opt(cst), std::thread::current().id()));
 }
 
 /// The function carrying `#[divan::bench]` with a `Bencher` parameter was entered.
 pub fn enter(id: u32, arg: Option<String>, ty: Option<&'static str>, cst: Option<String>) {
-    push(format!("ENTER\t{id}\t{}\t{}\t{}\t{:?}", opt(arg), ty.map(short).unwrap_or("-"), opt(cst), std::thread::current().id()));
+    push(format!("ENTER\t{id}\t{}\t{}\t{}\t{:?}", opt(arg), ty.unwrap_or("-"), opt(cst), std::thread::current().id()));
 }
 
 /// Any other closure handed to a Bencher ran (generator, counter, destructor).
@@ -267,6 +267,16 @@ ARG_KINDS = {
     "empty": ("[]", "u8", [], "x.to_string()"),
 }
 
+# Types whose display label is not the bare identifier: label -> Rust expression. The label is the type's
+# name with the leading module path removed and everything inside the generic brackets kept as written by
+# the compiler (`Vec<zoo::TA>`); it contains `::`, the separator of display paths.
+TYPE_EXPR = {
+    "Vec<zoo::TA>": "Vec<crate::TA>",
+    "Option<zoo::TB>": "Option<crate::TB>",
+    "&str": "&'static str",
+    "(u8, zoo::TA)": "(u8, crate::TA)",
+}
+
 PRELUDE = '''// GENERATED by /verif/lib/zoogen.py -- do not edit.
 #![allow(dead_code, unused_variables, non_snake_case, improper_ctypes_definitions, clippy::all)]
 
@@ -285,6 +295,15 @@ pub struct TB;
 pub struct TC;
 #[derive(Debug)]
 pub struct Dbg(pub u32);
+/// Identity of a generic instantiation as the model names it (independent of `type_name`).
+pub trait Tag { const TAG: &'static str; }
+impl Tag for TA { const TAG: &'static str = "TA"; }
+impl Tag for TB { const TAG: &'static str = "TB"; }
+impl Tag for TC { const TAG: &'static str = "TC"; }
+impl Tag for Vec<TA> { const TAG: &'static str = "Vec<zoo::TA>"; }
+impl Tag for Option<TB> { const TAG: &'static str = "Option<zoo::TB>"; }
+impl Tag for &'static str { const TAG: &'static str = "&str"; }
+impl Tag for (u8, TA) { const TAG: &'static str = "(u8, zoo::TA)"; }
 
 fn main() {
     rt::run();
@@ -315,7 +334,7 @@ def add_bench(m, path, indent, raw_name, form="plain", args=None, types=None, co
         # the literal `[]` is special-cased by the macro (it needs the element type): leave it bare
         opts.append(("args", expr if args == "empty" else "crate::rt::counted(%d, %s)" % (bid, expr)))
     if types is not None:
-        opts.append(("types", "[%s]" % ", ".join("crate::" + t for t in types)))
+        opts.append(("types", "[%s]" % ", ".join(TYPE_EXPR.get(t, "crate::" + t) for t in types)))
     const_labels = None
     if consts is not None:
         const_labels = list(const_labels_given) if const_labels_given is not None else [str(c) for c in consts]
@@ -325,9 +344,9 @@ def add_bench(m, path, indent, raw_name, form="plain", args=None, types=None, co
     attr = "#[divan::bench(%s)]" % attr_options(opts) if opts else "#[divan::bench]"
     generics = []
     if types is not None and consts is not None:
-        generics = ["T: 'static", "const N: %s" % const_ty] if type_first else ["const N: %s" % const_ty, "T: 'static"]
+        generics = ["T: crate::Tag + 'static", "const N: %s" % const_ty] if type_first else ["const N: %s" % const_ty, "T: crate::Tag + 'static"]
     elif types is not None:
-        generics = ["T: 'static"]
+        generics = ["T: crate::Tag + 'static"]
     elif consts is not None:
         generics = ["const N: %s" % const_ty]
     gen = "<%s>" % ", ".join(generics) if generics else ""
@@ -336,7 +355,7 @@ def add_bench(m, path, indent, raw_name, form="plain", args=None, types=None, co
         params.append("bencher: divan::Bencher")
     if args is not None:
         params.append("x: %s" % ARG_KINDS[args][1])
-    ty_expr = "Some(std::any::type_name::<T>())" if types is not None else "None"
+    ty_expr = "Some(<T as crate::Tag>::TAG)" if types is not None else "None"
     cst_expr = "Some(N.to_string())" if consts is not None else "None"
     arg_expr = "Some(%s)" % ARG_KINDS[args][3] if args is not None else "None"
     call = "crate::rt::%s(%d, %s, %s, %s)" % ("hit", bid, arg_expr, ty_expr, cst_expr)
@@ -442,6 +461,7 @@ def family_forms(m, tier):
         dict(raw_name="a_empty", args="empty"),
         dict(raw_name="g_types", types=["TA", "TB"]),
         dict(raw_name="g_types_empty", types=[]),
+        dict(raw_name="g_types_composite", types=["Vec<zoo::TA>", "TB", "Option<zoo::TB>", "&str", "(u8, zoo::TA)"]),
         dict(raw_name="g_consts", consts=[2, 10, 1]),
         dict(raw_name="g_consts_ext3", consts=[3, 1, 2], consts_expr="crate::CONSTS3"),
         dict(raw_name="g_consts_empty", consts=[]),
